@@ -1,6 +1,6 @@
 (** * Driver: one recorded invocation in, one JSON line out (extracted to OCaml) *)
 From Coq Require Import List String Ascii Bool Arith.
-From Entrait Require Import Tok Sexp Syn Decode Opts Split FnParams Convert Codegen Expand Show.
+From Entrait Require Import Tok Sexp Syn Decode Opts Split FnParams Convert Codegen Expand Show Proj Proj2 Proj3 Proj4.
 Import ListNotations.
 Local Open Scope string_scope.
 Local Open Scope list_scope.
@@ -19,8 +19,8 @@ Definition input_kind (i : input) : option kind :=
   match i with
   | InFn _ _ _ | InFnErr _ => Some KFn
   | InTrait _ _ | InTraitErr _ => Some KTrait
-  | InImpl _ _ _ _ _ | InImplErr _ => Some KImpl
-  | InMod _ _ _ _ | InModErr _ => Some KMod
+  | InImpl _ _ _ _ _ _ | InImplErr _ => Some KImpl
+  | InMod _ _ _ _ _ | InModErr _ => Some KMod
   | InHeadErr => None
   end.
 
@@ -40,6 +40,93 @@ Definition real_error_msg (ts : toks) : option string :=
 (** string literal canonical form used by synx: Rust's [{:?}] of the value *)
 Definition quote_msg (m : string) : string := """" +++ json_escape m +++ """".
 
+Definition bit (b : bool) : string := if b then "1" else "0".
+
+(** per property: app det holds(real) alpha-equal holds(model) *)
+Definition view_pair (real model : view) : string :=
+  bit (v_app real || v_app model) +++ bit (v_det real) +++ bit (v_holds real) +++
+  bit (toks_list_eqb (v_alpha real) (v_alpha model) && Bool.eqb (v_app real) (v_app model)) +++ bit (v_holds model).
+
+Definition real_class (r : real_out) : oclass :=
+  match r with
+  | RPanic => CPanic
+  | ROut ts _ => match real_error_msg ts with
+                 | Some m => CError (Some m)
+                 | None => CTokens
+                 end
+  end.
+
+Definition model_class (m : outcome) : oclass :=
+  match m with
+  | OTokens _ => CTokens
+  | OError (EMsg m) => CError (Some (quote_lit m))
+  | OError ESyn => CError None
+  | OPanic _ => CPanic
+  | OOut _ => CError None
+  end.
+
+(** C15's alpha ignores the text of syn's own messages (not modelled) *)
+Definition c15_views (cx : ctx) (real : real_out) (model : outcome) (parsable : bool) : view * view :=
+  let rc := match real_class real, model_class model with
+            | CError (Some _), CError None => CError None
+            | x, _ => x
+            end in
+  (view_C15 cx rc parsable, view_C15 cx (model_class model) true).
+
+Definition views_json (cx : ctx) (c : case) (model : outcome) (model_items : option (list item)) : list (string * string) :=
+  let exact := match model, c_real c with
+               | OTokens mts, ROut rts _ => toks_eqb mts rts
+               | _, _ => false
+               end in
+  (* the implementation's items: the model's when the tokens are identical, otherwise what syn parsed
+     from the real tokens provided they print back to exactly those tokens *)
+  let real_items : option (list item) :=
+    match c_real c with
+    | ROut rts parsed =>
+        match real_error_msg rts with
+        | Some _ => None
+        | None => if exact then model_items
+                  else match parsed with
+                       | Some its => if toks_eqb (print_items its) rts then Some its else None
+                       | None => None
+                       end
+        end
+    | RPanic => None
+    end in
+  let parsable := match c_real c with
+                  | ROut rts (Some its) => toks_eqb (print_items its) rts
+                  | ROut _ None => false
+                  | RPanic => true
+                  end in
+  let on_items (f : ctx -> list item -> view) : string :=
+    match real_items, model_items with
+    | Some ri, Some mi => view_pair (f cx ri) (f cx mi)
+    | Some ri, None => view_pair (f cx ri) na
+    | None, Some mi =>
+        (* the model expanded, the implementation did not (error / panic / unparsable) *)
+        let m := f cx mi in
+        view_pair (mkView (v_app m) false false []) m
+    | None, None => view_pair na na
+    end in
+  let c02 :=
+    match c_real c, model with
+    | ROut rts _, OTokens mts =>
+        match real_error_msg rts with
+        | Some _ => let m := view_C02 cx (c_input_toks c) mts in view_pair (mkView (v_app m) false false []) m
+        | None => view_pair (view_C02 cx (c_input_toks c) rts) (view_C02 cx (c_input_toks c) mts)
+        end
+    | ROut rts _, _ =>
+        match real_error_msg rts with
+        | Some _ => view_pair na na
+        | None => view_pair (view_C02 cx (c_input_toks c) rts) na
+        end
+    | RPanic, OTokens mts => let m := view_C02 cx (c_input_toks c) mts in view_pair (mkView (v_app m) false false []) m
+    | RPanic, _ => view_pair na na
+    end in
+  let '(r15, m15) := c15_views cx (c_real c) model parsable in
+  map (fun '(id, f) => (id, jstr (on_items f))) item_views ++
+  [("C02", jstr c02); ("C15", jstr (view_pair r15 m15)); ("parsable", jbool parsable)].
+
 Definition run_case (c : case) : string :=
   let v := match variant_of_string (c_variant c) with Some v => v | None => VEntrait end in
   let classified := classify (c_input_toks c) in
@@ -52,7 +139,15 @@ Definition run_case (c : case) : string :=
                    | Some ts => toks_eqb ts (c_input_toks c)
                    | None => false
                    end in
-  let model := expand v (c_attr c) (c_input c) in
+  let model_items := expand_items v (c_attr c) (c_input c) in
+  let model := match model_items with
+               | Ok items => OTokens (print_items items)
+               | Err e => OError e
+               | Panic s => OPanic s
+               | OutOfDomain w => OOut w
+               end in
+  let cx := mkCtx v (c_attr c) (c_input c) in
+  let views := views_json cx c model (match model_items with Ok its => Some its | _ => None end) in
   let common := [("site", jstr (c_site c)); ("variant", jstr (c_variant c));
                  ("kind", jstr (match input_kind (c_input c) with Some k => kind_name k | None => "none" end));
                  ("kind_ok", jbool kind_ok); ("roundtrip", jbool roundtrip)] in
@@ -79,7 +174,7 @@ Definition run_case (c : case) : string :=
     | OError _, RPanic => [("agree", jbool false); ("class", jstr "error"); ("model", jstr "error"); ("real", jstr "PANIC")]
     | OOut w, _ => [("agree", jbool false); ("class", jstr "out_of_domain"); ("model", jstr w)]
     end in
-  jobj (common ++ verdict).
+  jobj (common ++ verdict ++ views).
 
 Definition run_line (line : string) : string :=
   match read_sexp line with
